@@ -4,6 +4,10 @@ package main
 import (
 	"encoding/json"
 	"fmt"
+	"os"
+	"os/exec"
+	"runtime/debug"
+	"strconv"
 	"math"
 	"reflect"
 	"strings"
@@ -17,6 +21,11 @@ func jsonUnmarshal(s string, into interface{}) error { return json.Unmarshal([]b
 func jsonMarshal(x interface{}) ([]byte, error)        { return json.Marshal(x) }
 
 func main() {
+	if len(os.Args) == 3 && os.Args[1] == "cyclic-child" {
+		n, _ := strconv.Atoi(os.Args[2])
+		cyclicChild(n)
+		return
+	}
 	env := FromFlags("c15")
 	runC15(env)
 	env.Finish()
@@ -864,6 +873,8 @@ func runC15(env *Env) {
 	Must(err)
 	g.installSeqCallbacks()
 	g.installReentry()
+	_, err = g.vm.Run(thisPrelude)
+	Must(err)
 	g.vmP = otto.New()
 	_, err = g.vmP.Run(pollutedPrelude)
 	Must(err)
@@ -893,6 +904,17 @@ func runC15(env *Env) {
 	g.callSeqCase(1)
 	g.callSeqCase(2)
 	g.depthHistCase(true)
+	for src := 0; src < len(thisSrcs); src++ {
+		for this := 0; this <= 10; this++ {
+			g.callThisCase(0, src, this)
+			if this != 0 && this != 4 {
+				g.callThisCase(1, src, this)
+			}
+		}
+	}
+	for shape := range cyclicShapes {
+		g.cyclicCase(shape)
+	}
 	g.specialGrid()
 	for how := 4; how <= 7; how++ {
 		g.protoObjCase(how)
@@ -932,7 +954,9 @@ func runC15(env *Env) {
 			g.callSeqCase(0)
 			continue
 		case k < 17:
-			if c := r.Intn(3); c == 0 {
+			if c := r.Intn(4); c == 3 {
+				g.callThisCase(r.Intn(2), r.Intn(len(thisSrcs)), r.Intn(11))
+			} else if c == 0 {
 				g.protoObjCase(4 + r.Intn(4))
 			} else if c == 1 {
 				g.kindHistCase(0)
@@ -3014,4 +3038,157 @@ func (g *gen) protoObjCase(how int) {
 	}
 	g.env.Add(fmt.Sprintf("CProtoObj %d %s %s %s %s", how, Clist(own), exp, keys, js),
 		fmt.Sprintf("object under enumerable prototype data: %s -> Export %s; Keys %s", src, shown, keys), "proto-object", true)
+}
+
+// ====================== which this an API call runs with ======================
+
+const thisPrelude = `
+function bump(k) { this.n = (this.n || 0) + k; return thisTag(this) }
+holder.bump = bump;
+var deep = { a: { probe: probe, bump: bump, toString: function() { return "DEEPA" } } };
+var n = 0;
+function resetN() { holder.n = 0; deep.a.n = 0; n = 0 }
+function readN() { return [holder.n, deep.a.n, n].join(",") }
+`
+
+var thisSrcs = [][2]string{ // source text for probe / for bump, by src kind
+	{"probe", "bump"}, {"holder.probe", "holder.bump"}, {`holder["probe"]`, `holder["bump"]`}, {"deep.a.probe", "deep.a.bump"},
+	{"(function(){ return probe })()", "(function(){ return bump })()"}}
+var thisLits = []string{"", "undefined", "undefined", "undefined", "undefined", "null", `"str"`, "7", "true", "holder", "deep.a"}
+var thisNames = []string{"nil", "otto.UndefinedValue()", "otto.Value{}", "undefined result of Run", "typed nil pointer", "otto.NullValue()", `"str"`, "7", "true", "holder (Value)", "deep.a (*otto.Object)"}
+
+func (g *gen) thisArg(kind int) interface{} {
+	vm := g.vm
+	switch kind {
+	case 0:
+		return nil
+	case 1:
+		return otto.UndefinedValue()
+	case 2:
+		return otto.Value{}
+	case 3:
+		v, _ := vm.Run("undefined")
+		return v
+	case 4:
+		return (*S2)(nil)
+	case 5:
+		return otto.NullValue()
+	case 6:
+		return "str"
+	case 7:
+		return 7
+	case 8:
+		return true
+	case 9:
+		v, _ := vm.Get("holder")
+		return v
+	default:
+		v, _ := vm.Run("deep.a")
+		return v.Object()
+	}
+}
+
+func parseInts(s string) []int64 {
+	out := []int64{}
+	for _, p := range strings.Split(s, ",") {
+		var v int64
+		if _, err := fmt.Sscanf(p, "%d", &v); err != nil {
+			v = -999
+		}
+		out = append(out, v)
+	}
+	return out
+}
+
+func (g *gen) callThisCase(api, src, this int) {
+	r := g.env.Rng
+	vm := g.vm
+	if api == 1 && (this == 0 || this == 4) {
+		this = 1 // Value.Call takes a Value
+	}
+	k := int64(r.Intn(50) + 1)
+	_, goArgs, lits, coqs, targs := g.seqArgs(0)
+	// 1. what the callee sees
+	var v otto.Value
+	var err error
+	callAPI := func(source string, args ...interface{}) bool {
+		return guard(func() {
+			if api == 0 {
+				v, err = vm.Call(source, g.thisArg(this), args...)
+				return
+			}
+			var f otto.Value
+			if f, err = vm.Run(source); err != nil {
+				return
+			}
+			tv, _ := vm.ToValue(g.thisArg(this))
+			v, err = f.Call(tv, args...)
+		})
+	}
+	langCall := func(source, argl string) string {
+		if this == 0 {
+			return source + "(" + argl + ")"
+		}
+		if argl != "" {
+			argl = ", " + argl
+		}
+		return "(" + source + ").call(" + thisLits[this] + argl + ")"
+	}
+	p := callAPI(thisSrcs[src][0], goArgs...)
+	obsAPI := callOb(v, err, p)
+	shownAPI := v.String()
+	o := RunJS(vm, langCall(thisSrcs[src][0], lits))
+	obsLang := callOb(o.Val, o.Err, o.Panic != nil)
+	// 2. which object the callee writes to
+	RunJS(vm, "resetN()")
+	callAPI(thisSrcs[src][1], k)
+	effAPI := g.jsText("readN()")
+	RunJS(vm, "resetN()")
+	RunJS(vm, langCall(thisSrcs[src][1], fmt.Sprint(k)))
+	effLang := g.jsText("readN()")
+	g.env.Add(fmt.Sprintf("CCallThis %d %d %d %d %s %s %s %s %s", api, src, this, k, coqs, obsAPI, obsLang, Czlist(parseInts(effAPI)), Czlist(parseInts(effLang))),
+		fmt.Sprintf("this of a call: %s source %s this %s args [%s] -> %q; in-language %s -> %q; after adding %d to this.n [holder.n, deep.a.n, global n] = %s, in-language %s",
+			[]string{"Otto.Call", "Value.Call"}[api], thisSrcs[src][0], thisNames[this], targs, shownAPI, langCall(thisSrcs[src][0], lits), o.Val.String(), k, effAPI, effLang), "call-this", true)
+}
+
+// ====================== Export of cyclic object graphs (in a child process: the overflow of the Go stack is fatal) ======================
+
+var cyclicShapes = []string{
+	`var a = {}; a.a = a; a`,
+	`var a = {x: 1}, b = {y: 2, back: a}; a.next = b; a`,
+	`var a = []; a[0] = a; a`,
+	`var a = {list: []}; a.list.push({owner: a}); a`,
+	`var a = {}, b = {}, c = {}; a.b = b; b.c = c; c.a = a; [a, 1]`,
+}
+
+// child mode: c15 cyclic-child <shape>
+func cyclicChild(shape int) {
+	debug.SetMaxStack(32 << 20) // die quickly instead of growing the stack to 1 GB
+	vm := otto.New()
+	v, err := vm.Run(cyclicShapes[shape])
+	if err != nil {
+		fmt.Println("run error", err)
+		os.Exit(3)
+	}
+	x, _ := v.Export()
+	fmt.Printf("exported %T\n", x)
+	os.Exit(0)
+}
+
+func (g *gen) cyclicCase(shape int) {
+	cmd := exec.Command(os.Args[0], "cyclic-child", fmt.Sprint(shape))
+	out, err := cmd.CombinedOutput()
+	obs := 0
+	shown := strings.TrimSpace(string(out))
+	if err != nil {
+		obs = 1
+		if i := strings.Index(shown, "\n"); i > 0 {
+			shown = shown[:i]
+		}
+		if len(shown) > 160 {
+			shown = shown[:160]
+		}
+		shown = fmt.Sprintf("child process died (%v): %s", err, shown)
+	}
+	g.env.Add(fmt.Sprintf("CCyclic %d %d", shape, obs), fmt.Sprintf("Export of a cyclic graph in a child process: %s -> %s", cyclicShapes[shape], shown), "export-cyclic", true)
 }
